@@ -148,6 +148,21 @@ theorem strictInt_natToStr (b n : Nat) (h : n < 2 ^ b) : strictInt b (natToStr n
   simp only [strictInt, h1, h2, h3, parseDigits_natToStr, h]
   simp
 
+theorem strictInt_neg_natToStr (b n : Nat) (h : n ≤ 2 ^ b) : strictInt b ('-' :: natToStr n) = some (true, n) := by
+  have hns : ∀ c ∈ ('-' :: natToStr n), isSpaceQt c = false := by
+    intro c hc
+    simp only [List.mem_cons] at hc
+    rcases hc with rfl | hc
+    · decide
+    · exact isDig_not_space (natToStr_isDig n c hc)
+  have h1 : trimQt ('-' :: natToStr n) = '-' :: natToStr n := trimQt_of_no_space _ hns
+  have h3 : (natToStr n).isEmpty = false := by
+    cases hh : natToStr n with
+    | nil => exact absurd hh (natToStr_ne_nil n)
+    | cons _ _ => rfl
+  have h4 : ('-' : Char) ≠ '+' := by decide
+  simp only [strictInt, h1, dropSign, h4, if_false, true_or, if_true, h3, Bool.false_eq_true, parseDigits_natToStr, h]
+
 theorem strictInt_nil (b : Nat) : strictInt b [] = none := by
   simp [strictInt, trimQt, dropSign]
 
@@ -461,6 +476,21 @@ theorem FTy.canon_parse (ty : FTy) (s : Str) : ty.canon (ty.parse s) = true := b
     cases h : posOfSigned (strictInt b s) with
     | none => rfl
     | some n => simp [FTy.canon, posOfSigned_lt h]
+  | sint b ze =>
+    simp only [FTy.parse]
+    cases h : strictInt b s with
+    | none => simp [FTy.canon, Nat.two_pow_pos]
+    | some r =>
+      obtain ⟨neg, m⟩ := r
+      have hl := strictInt_lt h
+      cases neg with
+      | false => simp [FTy.canon, hl.2 rfl]
+      | true =>
+        by_cases hm : m = 0
+        · subst hm; simp [FTy.canon, Nat.two_pow_pos]
+        · have : (m != 0) = true := by simpa using hm
+          simp only [Bool.true_and, this, FTy.canon, if_true, Bool.and_eq_true, decide_eq_true_eq]
+          exact ⟨by omega, hl.1⟩
   | flag ts => rfl
   | enum ns =>
     simp only [FTy.parse]
@@ -524,6 +554,23 @@ theorem FTy.parse_show (ty : FTy) (v : Val) (hw : ty.wf = true) (hc : ty.canon v
         simp only [FTy.canon, Bool.and_eq_true, decide_eq_true_eq] at hc
         have hn : (n == 0) = false := by simp; omega
         simp [FTy.show, FTy.parse, strictInt_natToStr b n hc.2, posOfSigned, hn]
+    | _ => simp [FTy.canon] at hc
+  | sint b ze =>
+    cases v with
+    | int neg m =>
+      cases neg with
+      | false =>
+        simp only [FTy.canon, Bool.false_eq_true, if_false, decide_eq_true_eq] at hc
+        by_cases hz : (ze && m == 0) = true
+        · simp only [Bool.and_eq_true, beq_iff_eq] at hz
+          obtain ⟨hze, rfl⟩ := hz
+          simp [FTy.show, FTy.parse, strictInt_nil, hze]
+        · simp [FTy.show, FTy.parse, strictInt_natToStr b m hc, hz]
+      | true =>
+        simp only [FTy.canon, if_true, Bool.and_eq_true, decide_eq_true_eq] at hc
+        have hm : (m != 0) = true := by simp; omega
+        have hm0 : (m == 0) = false := by simp; omega
+        simp [FTy.show, FTy.parse, strictInt_neg_natToStr b m hc.2, hm, hm0]
     | _ => simp [FTy.canon] at hc
   | flag ts =>
     cases v with
@@ -602,6 +649,15 @@ theorem FTy.parse_nil_of_default (ty : FTy) (v : Val) (hw : ty.wf = true) (hc : 
   | posInt b =>
     cases v with
     | opt i => cases i <;> simp_all [FTy.isDefault, FTy.parse, strictInt_nil, posOfSigned]
+    | _ => simp [FTy.canon] at hc
+  | sint b ze =>
+    cases v with
+    | int neg m =>
+      simp only [FTy.isDefault, beq_iff_eq] at hd
+      subst hd
+      cases neg with
+      | false => simp [FTy.parse, strictInt_nil]
+      | true => simp [FTy.canon] at hc
     | _ => simp [FTy.canon] at hc
   | flag ts =>
     cases v with
@@ -747,6 +803,212 @@ theorem deepText_textNode (t : Str) (as : List (Str × Str)) (s : Str) :
   | nil => simp [deepText, deepTextList]
   | cons c cs => simp [deepText, deepTextList]
 
+/-! ### uninterpreted children: `normE` is idempotent and keeps tag and namespace -/
+
+theorem keptAttrs_find_xmlns (as : List (Str × Str)) :
+    (keptAttrs as).find? (fun kv => kv.1 == "xmlns".toList) = none := by
+  simp only [keptAttrs, List.find?_eq_none, List.mem_filter, Bool.and_eq_true, bne_iff_ne, ne_eq]
+  intro kv h
+  simpa using h.2.1
+
+theorem keptAttrs_idem (as : List (Str × Str)) : keptAttrs (keptAttrs as) = keptAttrs as := by
+  simp [keptAttrs, List.filter_filter]
+
+theorem nsOf_attrs_only (n : Str) (as : List (Str × Str)) (ks ks' : List Node) (p : Str) :
+    (Node.elem n as ks).nsOf p = (Node.elem n as ks').nsOf p := rfl
+
+/-- the attributes `normE` writes put the element in the namespace it was in -/
+theorem nsOf_normAttrs (n : Str) (as : List (Str × Str)) (ks : List Node) (p : Str) :
+    (Node.elem n ((if (Node.elem n as []).nsOf p == p then [] else [("xmlns".toList, (Node.elem n as []).nsOf p)])
+        ++ keptAttrs as) ks).nsOf p = (Node.elem n as []).nsOf p := by
+  split
+  · rename_i h
+    simp only [List.nil_append, Node.nsOf, keptAttrs_find_xmlns]
+    simpa [Node.nsOf] using (beq_iff_eq.mp h).symm
+  · simp [Node.nsOf]
+
+theorem keptAttrs_normAttrs (x : List (Str × Str)) (as : List (Str × Str))
+    (hx : ∀ kv ∈ x, kv.1 = "xmlns".toList) : keptAttrs (x ++ keptAttrs as) = keptAttrs as := by
+  have : keptAttrs x = [] := by
+    simp only [keptAttrs, List.filter_eq_nil_iff, Bool.and_eq_true, bne_iff_ne, ne_eq, not_and]
+    intro kv hkv h
+    exact absurd (hx kv hkv) h
+  simp only [keptAttrs] at this ⊢
+  rw [List.filter_append, this, List.nil_append]
+  exact keptAttrs_idem as
+
+theorem directText_normEs : ∀ (q : Str) (ks : List Node), directText (normEs q ks) = []
+  | _, [] => rfl
+  | q, .text _ :: ks => by simp only [normEs]; exact directText_normEs q ks
+  | q, .elem n as ks' :: ks => by simp only [normEs, normE, directText]; exact directText_normEs q ks
+
+mutual
+theorem normE_idem : ∀ (p : Str) (t : Node), normE p (normE p t) = normE p t
+  | _, .text _ => rfl
+  | p, .elem n as ks => by
+    simp only [normE]
+    have hns := nsOf_normAttrs n as [] p
+    have hns' : (Node.elem n ((if (Node.elem n as []).nsOf p == p then [] else [("xmlns".toList, (Node.elem n as []).nsOf p)])
+        ++ keptAttrs as) []).nsOf p = (Node.elem n as []).nsOf p := hns
+    rw [hns']
+    have hk : keptAttrs ((if (Node.elem n as []).nsOf p == p then [] else [("xmlns".toList, (Node.elem n as []).nsOf p)])
+        ++ keptAttrs as) = keptAttrs as := by
+      apply keptAttrs_normAttrs
+      intro kv hkv
+      split at hkv
+      · simp at hkv
+      · simp only [List.mem_singleton] at hkv
+        rw [hkv]
+    rw [hk]
+    -- the children: text first, then the (already normalised) elements
+    have hd : directText ((if (directText ks).isEmpty then [] else [Node.text (directText ks)])
+        ++ normEs ((Node.elem n as []).nsOf p) ks) = directText ks := by
+      split
+      · rename_i h
+        simp only [List.nil_append, directText_normEs]
+        exact (List.isEmpty_iff.mp h).symm
+      · simp [directText, directText_normEs]
+    have hes : normEs ((Node.elem n as []).nsOf p) ((if (directText ks).isEmpty then [] else [Node.text (directText ks)])
+        ++ normEs ((Node.elem n as []).nsOf p) ks) = normEs ((Node.elem n as []).nsOf p) ks := by
+      split
+      · simp only [List.nil_append]; exact normEs_idem _ ks
+      · simp only [List.singleton_append, normEs]; exact normEs_idem _ ks
+    rw [hd, hes]
+theorem normEs_idem : ∀ (q : Str) (ks : List Node), normEs q (normEs q ks) = normEs q ks
+  | _, [] => rfl
+  | q, .text _ :: ks => by simp only [normEs]; exact normEs_idem q ks
+  | q, .elem n as ks' :: ks => by
+    have h1 := normE_idem q (.elem n as ks')
+    have h2 := normEs_idem q ks
+    have hshape : ∃ n' as' ks'', normE q (.elem n as ks') = .elem n' as' ks'' := ⟨_, _, _, rfl⟩
+    obtain ⟨n', as', ks'', he⟩ := hshape
+    simp only [normEs]
+    rw [he] at h1 ⊢
+    simp only [normEs, h1, h2]
+end
+
+mutual
+theorem nodeEq_refl : ∀ (t : Node), nodeEq t t = true
+  | .text _ => by simp [nodeEq]
+  | .elem n as ks => by simp [nodeEq, nodesEq_refl ks]
+theorem nodesEq_refl : ∀ (ks : List Node), nodesEq ks ks = true
+  | [] => rfl
+  | k :: ks => by simp [nodesEq, nodeEq_refl k, nodesEq_refl ks]
+end
+
+mutual
+theorem nodeEq_eq : ∀ (a b : Node), nodeEq a b = true → a = b
+  | .text a, .text b, h => by simp only [nodeEq, beq_iff_eq] at h; rw [h]
+  | .elem n as ks, .elem m bs ls, h => by
+    simp only [nodeEq, Bool.and_eq_true, beq_iff_eq] at h
+    rw [h.1.1, h.1.2, nodesEq_eq ks ls h.2]
+  | .text _, .elem .., h => by simp [nodeEq] at h
+  | .elem .., .text _, h => by simp [nodeEq] at h
+theorem nodesEq_eq : ∀ (as bs : List Node), nodesEq as bs = true → as = bs
+  | [], [], _ => rfl
+  | a :: as, b :: bs, h => by
+    simp only [nodesEq, Bool.and_eq_true] at h
+    rw [nodeEq_eq a b h.1, nodesEq_eq as bs h.2]
+  | [], _ :: _, h => by simp [nodesEq] at h
+  | _ :: _, [], h => by simp [nodesEq] at h
+end
+
+theorem normE_isElem (p : Str) (t : Node) : (normE p t).isElem = t.isElem := by
+  cases t <;> simp [normE, Node.isElem]
+
+theorem normE_name (p : Str) (t : Node) : (normE p t).name = t.name := by
+  cases t <;> simp [normE, Node.name]
+
+theorem normE_nsOf (p : Str) (t : Node) : (normE p t).nsOf p = t.nsOf p := by
+  cases t with
+  | text s => rfl
+  | elem n as ks =>
+    simp only [normE]
+    exact nsOf_normAttrs n as _ p
+
+theorem Pat.matches_normE (e : Pat) (p : Str) (t : Node) : e.matches p (normE p t) = e.matches p t := by
+  simp only [Pat.matches, normE_isElem, normE_name, normE_nsOf]
+
+theorem exclAny_normE (excl : List Pat) (p : Str) (t : Node) : exclAny excl p (normE p t) = exclAny excl p t := by
+  simp only [exclAny, Pat.matches_normE]
+
+theorem Pat.matches_of_covers (e : Pat) (p : Str) (k : Node) (hk : k.isElem = true)
+    (h : e.covers (k.name, k.nsOf p) = true) : e.matches p k = true := by
+  simp only [Pat.covers, Bool.and_eq_true] at h
+  simp only [Pat.matches, hk, Bool.true_and, Bool.and_eq_true]
+  exact h
+
+/-- a pattern that covers a lookup matches every child the lookup can see -/
+theorem Pat.matches_of_coversLookup (e : Pat) (anyTag : Bool) (tag : Str) (anyNs : Bool) (ns p : Str) (k : Node)
+    (hc : e.coversLookup anyTag tag anyNs ns = true)
+    (hs : (k.isElem && (anyTag || k.name == tag) && (anyNs || k.nsOf p == ns)) = true) : e.matches p k = true := by
+  simp only [Bool.and_eq_true, Bool.or_eq_true, beq_iff_eq] at hs
+  obtain ⟨⟨he, ht⟩, hn⟩ := hs
+  simp only [Pat.coversLookup, Bool.and_eq_true] at hc
+  simp only [Pat.matches, he, Bool.true_and, Bool.and_eq_true]
+  constructor
+  · cases htg : e.tag with
+    | none => rfl
+    | some t' =>
+      have := hc.1
+      simp only [htg, Bool.and_eq_true, Bool.not_eq_true', beq_iff_eq] at this
+      rcases ht with ht | ht
+      · simp [ht] at this
+      · simp [ht, this.2]
+  · cases hng : e.ns with
+    | none => rfl
+    | some n' =>
+      have := hc.2
+      simp only [hng, Bool.and_eq_true, Bool.not_eq_true', beq_iff_eq] at this
+      rcases hn with hn | hn
+      · simp [hn] at this
+      · simp [hn, this.2]
+
+theorem exclAny_of_coversLookup (excl : List Pat) (anyTag : Bool) (tag : Str) (anyNs : Bool) (ns p : Str) (k : Node)
+    (hc : (excl.any fun e => e.coversLookup anyTag tag anyNs ns) = true)
+    (hs : (k.isElem && (anyTag || k.name == tag) && (anyNs || k.nsOf p == ns)) = true) : exclAny excl p k = true := by
+  simp only [List.any_eq_true] at hc
+  obtain ⟨e, he, hce⟩ := hc
+  simp only [exclAny, List.any_eq_true]
+  exact ⟨e, he, Pat.matches_of_coversLookup e anyTag tag anyNs ns p k hce hs⟩
+
+/-- what a sibling field can see is claimed by an exclusion list that covers the field -/
+theorem covered_sees (excl : List Pat) (f : Field) (p : Str) (k : Node) (hc : f.covered excl = true)
+    (hs : f.sees p k = true) : exclAny excl p k = true := by
+  cases f with
+  | attr n ty o => simp [Field.sees] at hs
+  | attrReadOnly n ty => simp [Field.sees] at hs
+  | attrRW r w ty o => simp [Field.sees] at hs
+  | attrReq n ty => simp [Field.sees] at hs
+  | text ty => simp [Field.covered] at hc
+  | rest p' excl' => simp [Field.covered] at hc
+  | enumChild ns decl anyNs names m =>
+    simp only [Field.covered] at hc
+    simp only [Field.sees, matchesNs] at hs
+    exact exclAny_of_coversLookup excl true [] anyNs ns p k hc (by simpa using hs)
+  | tagChild ns decl anyNs names skip ko l tf =>
+    simp only [Field.covered] at hc
+    simp only [Field.sees, tagCand, Bool.and_eq_true] at hs
+    exact exclAny_of_coversLookup excl true [] anyNs ns p k hc (by simp [hs.1.1.1, hs.1.1.2])
+  | child h fs mode =>
+    simp only [Field.covered] at hc
+    simp only [Field.sees, Head.matches] at hs
+    exact exclAny_of_coversLookup excl _ _ _ _ p k hc hs
+  | many h fs ne =>
+    simp only [Field.covered] at hc
+    simp only [Field.sees, Head.matches] at hs
+    exact exclAny_of_coversLookup excl _ _ _ _ p k hc hs
+  | strSet h =>
+    simp only [Field.covered] at hc
+    simp only [Field.sees, Head.matches] at hs
+    exact exclAny_of_coversLookup excl _ _ _ _ p k hc hs
+  | formValue a names dflt vh kinds de oh ofs optFor =>
+    simp only [Field.covered, Bool.and_eq_true] at hc
+    simp only [Field.sees, Head.matches, Bool.or_eq_true] at hs
+    rcases hs with hs | hs
+    · exact exclAny_of_coversLookup excl _ _ _ _ p k hc.1 hs
+    · exact exclAny_of_coversLookup excl _ _ _ _ p k hc.2 hs
+
 /-! ### what a field writes -/
 
 theorem encF_attrs (f : Field) (v : Val) : ∀ kv ∈ (encF f v).1, f.writes kv.1 = true := by
@@ -763,6 +1025,9 @@ theorem encF_attrs (f : Field) (v : Val) : ∀ kv ∈ (encF f v).1, f.writes kv.
     split at h
     · simp at h
     · simp at h; subst h; simp [Field.writes]
+  | attrReq name ty =>
+    simp only [encF, List.mem_singleton] at h
+    subst h; simp [Field.writes]
   | text ty => simp [encF] at h
   | enumChild ns decl anyNs names m =>
     simp only [encF] at h
@@ -788,6 +1053,9 @@ theorem encF_attrs (f : Field) (v : Val) : ∀ kv ∈ (encF f v).1, f.writes kv.
     split at h
     · simp at h; subst h; simp [Field.writes]
     · simp at h
+  | rest p excl =>
+    simp only [encF] at h
+    split at h <;> simp at h
 
 theorem encFs_attrs : ∀ (fs : List Field) (vs : List Val),
     ∀ kv ∈ (encFs fs vs).1, ∃ f ∈ fs, f.writes kv.1 = true
@@ -821,6 +1089,9 @@ theorem wfF_reads_xmlns {pns : Str} {f : Field} (h : wfF pns f = true) : f.reads
     simp [Field.reads, h.1]
   | attrReadOnly name ty => simp [wfF] at h
   | attrRW r w ty o => simp [wfF] at h
+  | attrReq name ty =>
+    simp only [wfF, Bool.and_eq_true, bne_iff_ne, ne_eq] at h
+    simp [Field.reads, h.1]
   | formValue a names dflt vh kinds de oh ofs optFor =>
     simp only [Field.reads, beq_eq_false_iff_ne, ne_eq]
     intro e
@@ -955,12 +1226,13 @@ def Field.isText : Field → Bool
 
 theorem encF_kids (pns : Str) (f : Field) (v : Val) (hw : wfF pns f = true) (hc : canonF f v = true) :
     ∀ k ∈ (encF f v).2, (f.isText = true ∧ k.isElem = false)
-      ∨ (k.isElem = true ∧ (k.name, k.nsOf pns) ∈ f.heads) := by
+      ∨ (k.isElem = true ∧ (k.name, k.nsOf pns) ∈ f.heads) ∨ f.isRest = true := by
   intro k hk
   cases f with
   | attr name ty omitD => simp [encF] at hk
   | attrReadOnly name ty => simp [encF] at hk
   | attrRW r w ty o => simp [wfF] at hw
+  | attrReq name ty => simp [encF] at hk
   | text ty =>
     left
     simp only [encF, textNode] at hk
@@ -968,7 +1240,7 @@ theorem encF_kids (pns : Str) (f : Field) (v : Val) (hw : wfF pns f = true) (hc 
     · simp at hk
     · simp at hk; subst hk; simp [Field.isText, Node.isElem]
   | enumChild ns decl anyNs names m =>
-    right
+    right; left
     simp only [encF] at hk
     split at hk
     · rename_i i
@@ -987,7 +1259,7 @@ theorem encF_kids (pns : Str) (f : Field) (v : Val) (hw : wfF pns f = true) (hc 
       exact ⟨nth names i, nth_mem hc, rfl⟩
     · simp at hk
   | tagChild ns decl anyNs names skip ko l tf =>
-    right
+    right; left
     simp only [encF] at hk
     split at hk
     · rename_i i tx hp
@@ -1006,7 +1278,7 @@ theorem encF_kids (pns : Str) (f : Field) (v : Val) (hw : wfF pns f = true) (hc 
       exact ⟨nth names i, nth_mem hc.1, rfl⟩
     · simp at hk
   | child hd fs mode =>
-    right
+    right; left
     simp only [wfF, Bool.and_eq_true] at hw
     simp only [encF] at hk
     split at hk
@@ -1017,11 +1289,11 @@ theorem encF_kids (pns : Str) (f : Field) (v : Val) (hw : wfF pns f = true) (hc 
         · simp at hk
         · simp only [List.mem_singleton] at hk
           subst hk
-          rw [nsOf_mk' hd pns _ (encFs fs vs).2 hw.1.1.1 (mk_no_xmlns hw.1.1.2 vs hw.1.2)]
+          rw [nsOf_mk' hd pns _ (encFs fs vs).2 hw.1.1.1.1 (mk_no_xmlns hw.1.1.1.2 vs hw.1.1.2)]
           simp [Field.heads, Head.mk', Node.isElem, Node.name]
     · simp at hk
   | many hd fs ne =>
-    right
+    right; left
     simp only [wfF, Bool.and_eq_true] at hw
     simp only [encF] at hk
     split at hk
@@ -1032,7 +1304,7 @@ theorem encF_kids (pns : Str) (f : Field) (v : Val) (hw : wfF pns f = true) (hc 
       simp [Field.heads, Head.mk', Node.isElem, Node.name]
     · simp at hk
   | strSet hd =>
-    right
+    right; left
     simp only [wfF, Bool.and_eq_true] at hw
     simp only [encF] at hk
     split at hk
@@ -1043,7 +1315,7 @@ theorem encF_kids (pns : Str) (f : Field) (v : Val) (hw : wfF pns f = true) (hc 
       simp [Field.heads, Head.mk', Node.isElem, Node.name]
     · simp at hk
   | formValue a names dflt vh kinds de oh ofs optFor =>
-    right
+    right; left
     simp only [wfF, Bool.and_eq_true] at hw
     obtain ⟨⟨⟨⟨⟨⟨⟨⟨⟨⟨⟨_, _⟩, _⟩, _⟩, _⟩, hvok⟩, hvex⟩, hook⟩, hoex⟩, hwfs⟩, _⟩, _⟩ := hw
     simp only [encF] at hk
@@ -1061,6 +1333,7 @@ theorem encF_kids (pns : Str) (f : Field) (v : Val) (hw : wfF pns f = true) (hc 
           simp [Field.heads, Head.mk', Node.isElem, Node.name]
         · simp at hk
     · simp at hk
+  | rest p excl => right; right; rfl
 
 /-! ### independence of fields -/
 
@@ -1079,16 +1352,17 @@ theorem indep_reads (f g : Field) (v : Val) (hi : indep f g = true) :
   fun kv hkv => indep_writes_reads f g hi kv.1 (encF_attrs g v kv hkv)
 
 theorem heads_all_sees (pns : Str) (g : Field) (v : Val) (hwg : wfF pns g = true)
-    (hcg : canonF g v = true) (hgt : g.isText = false) (p : Str × Str → Bool)
+    (hcg : canonF g v = true) (hgt : g.isText = false) (hgr : g.isRest = false) (p : Str × Str → Bool)
     (hall : g.heads.all (fun hd => !p hd) = true) :
     ∀ k ∈ (encF g v).2, k.isElem = true ∧ p (k.name, k.nsOf pns) = false := by
   intro k hk
-  rcases encF_kids pns g v hwg hcg k hk with h | h
+  rcases encF_kids pns g v hwg hcg k hk with h | h | h
   · simp [hgt] at h
   · simp only [List.all_eq_true, Bool.not_eq_true'] at hall
     exact ⟨h.1, hall _ h.2⟩
+  · simp [hgr] at h
 
-theorem indep_sees (pns : Str) (f g : Field) (v : Val) (hi : indep f g = true)
+theorem indep_sees (pns : Str) (f g : Field) (v : Val) (hi : indep f g = true) (hwf : wfF pns f = true)
     (hwg : wfF pns g = true) (hcg : canonF g v = true) :
     ∀ k ∈ (encF g v).2, f.sees pns k = false := by
   intro k hk
@@ -1096,92 +1370,135 @@ theorem indep_sees (pns : Str) (f g : Field) (v : Val) (hi : indep f g = true)
     simp only [indep, Bool.and_eq_true] at hi
     exact hi.2
   clear hi
+  cases hgr : g.isRest with
+  | true =>
+    -- `g` is the rest: its trees are outside its exclusion list, which covers everything `f` can see
+    obtain ⟨p, excl, rfl⟩ : ∃ p excl, g = Field.rest p excl := by cases g <;> simp_all [Field.isRest]
+    have hcov : f.covered excl = true := by simpa [indepK] using hiK
+    have hp : p = pns := by simpa [wfF] using hwg
+    subst hp
+    cases v with
+    | list items =>
+      simp only [encF, List.mem_map] at hk
+      obtain ⟨it, hit, rfl⟩ := hk
+      simp only [canonF, List.all_eq_true, Bool.and_eq_true, Bool.not_eq_true'] at hcg
+      have hne := (hcg it hit).1.2
+      cases hs : f.sees p it.getNode with
+      | false => rfl
+      | true => rw [covered_sees excl f p _ hcov hs] at hne; exact absurd hne (by decide)
+    | _ => simp [encF] at hk
+  | false =>
   cases f with
   | attr n ty o => rfl
   | attrReadOnly n ty => rfl
   | attrRW r w ty o => rfl
+  | attrReq n ty => rfl
   | text ty =>
-    cases g <;> simp_all [indepK, Field.emitsKids, encF]
+    cases g <;> simp_all [indepK, Field.emitsKids, encF, Field.isRest]
   | enumChild ns decl anyNs names m =>
     cases hgt : g.isText with
-    | true => cases g <;> simp_all [indepK, Field.isText]
+    | true => cases g <;> simp_all [indepK, Field.isText, Field.isRest]
     | false =>
       have hall : g.heads.all (fun hd => !(anyNs || hd.2 == ns)) = true := by
-        cases g <;> simp_all [indepK, Field.isText] <;> assumption
-      have := heads_all_sees pns g v hwg hcg hgt
+        cases g <;> simp_all [indepK, Field.isText, Field.isRest] <;> assumption
+      have := heads_all_sees pns g v hwg hcg hgt hgr
         (fun hd => anyNs || hd.2 == ns) hall k hk
       simp only [Field.sees, matchesNs, this.1, Bool.true_and]
       exact this.2
   | tagChild ns decl anyNs names skip ko l tf =>
     cases hgt : g.isText with
     | true =>
-      rcases encF_kids pns g v hwg hcg k hk with h' | h'
+      rcases encF_kids pns g v hwg hcg k hk with h' | h' | h'
       · simp [Field.sees, tagCand, h'.2]
       · cases g <;> simp_all [Field.isText, Field.heads]
+      · simp [hgr] at h'
     | false =>
       have hall : g.heads.all (fun hd => !((anyNs || hd.2 == ns) && !skip.contains hd.1
           && (!ko || names.contains hd.1))) = true := by
-        cases g <;> simp_all [indepK, Field.isText]
-      have := heads_all_sees pns g v hwg hcg hgt
+        cases g <;> simp_all [indepK, Field.isText, Field.isRest]
+      have := heads_all_sees pns g v hwg hcg hgt hgr
         (fun hd => (anyNs || hd.2 == ns) && !skip.contains hd.1 && (!ko || names.contains hd.1)) hall k hk
       simp only [Field.sees, tagCand, this.1, Bool.true_and]
       exact this.2
   | child h fs mode =>
     cases hgt : g.isText with
     | true =>
-      rcases encF_kids pns g v hwg hcg k hk with h' | h'
+      rcases encF_kids pns g v hwg hcg k hk with h' | h' | h'
       · simp [Field.sees, Head.matches, h'.2]
       · cases g <;> simp_all [Field.isText, Field.heads]
+      · simp [hgr] at h'
     | false =>
       have hall : g.heads.all (fun hd => !((h.anyTag || hd.1 == h.tag) && (h.anyNs || hd.2 == h.ns))) = true := by
-        cases g <;> simp_all [indepK, Field.isText]
-      have := heads_all_sees pns g v hwg hcg hgt
+        cases g <;> simp_all [indepK, Field.isText, Field.isRest]
+      have := heads_all_sees pns g v hwg hcg hgt hgr
         (fun hd => (h.anyTag || hd.1 == h.tag) && (h.anyNs || hd.2 == h.ns)) hall k hk
       simp only [Field.sees, Head.matches, this.1, Bool.true_and]
       exact this.2
   | many h fs ne =>
     cases hgt : g.isText with
     | true =>
-      rcases encF_kids pns g v hwg hcg k hk with h' | h'
+      rcases encF_kids pns g v hwg hcg k hk with h' | h' | h'
       · simp [Field.sees, Head.matches, h'.2]
       · cases g <;> simp_all [Field.isText, Field.heads]
+      · simp [hgr] at h'
     | false =>
       have hall : g.heads.all (fun hd => !((h.anyTag || hd.1 == h.tag) && (h.anyNs || hd.2 == h.ns))) = true := by
-        cases g <;> simp_all [indepK, Field.isText]
-      have := heads_all_sees pns g v hwg hcg hgt
+        cases g <;> simp_all [indepK, Field.isText, Field.isRest]
+      have := heads_all_sees pns g v hwg hcg hgt hgr
         (fun hd => (h.anyTag || hd.1 == h.tag) && (h.anyNs || hd.2 == h.ns)) hall k hk
       simp only [Field.sees, Head.matches, this.1, Bool.true_and]
       exact this.2
   | strSet h =>
     cases hgt : g.isText with
     | true =>
-      rcases encF_kids pns g v hwg hcg k hk with h' | h'
+      rcases encF_kids pns g v hwg hcg k hk with h' | h' | h'
       · simp [Field.sees, Head.matches, h'.2]
       · cases g <;> simp_all [Field.isText, Field.heads]
+      · simp [hgr] at h'
     | false =>
       have hall : g.heads.all (fun hd => !((h.anyTag || hd.1 == h.tag) && (h.anyNs || hd.2 == h.ns))) = true := by
-        cases g <;> simp_all [indepK, Field.isText]
-      have := heads_all_sees pns g v hwg hcg hgt
+        cases g <;> simp_all [indepK, Field.isText, Field.isRest]
+      have := heads_all_sees pns g v hwg hcg hgt hgr
         (fun hd => (h.anyTag || hd.1 == h.tag) && (h.anyNs || hd.2 == h.ns)) hall k hk
       simp only [Field.sees, Head.matches, this.1, Bool.true_and]
       exact this.2
   | formValue a names dflt vh kinds de oh ofs optFor =>
     cases hgt : g.isText with
     | true =>
-      rcases encF_kids pns g v hwg hcg k hk with h' | h'
+      rcases encF_kids pns g v hwg hcg k hk with h' | h' | h'
       · simp [Field.sees, Head.matches, h'.2]
       · cases g <;> simp_all [Field.isText, Field.heads]
+      · simp [hgr] at h'
     | false =>
       have hall : g.heads.all (fun hd => !(((vh.anyTag || hd.1 == vh.tag) && (vh.anyNs || hd.2 == vh.ns))
           || ((oh.anyTag || hd.1 == oh.tag) && (oh.anyNs || hd.2 == oh.ns)))) = true := by
-        cases g <;> simp_all [indepK, Field.isText]
-      have := heads_all_sees pns g v hwg hcg hgt
+        cases g <;> simp_all [indepK, Field.isText, Field.isRest]
+      have := heads_all_sees pns g v hwg hcg hgt hgr
         (fun hd => ((vh.anyTag || hd.1 == vh.tag) && (vh.anyNs || hd.2 == vh.ns))
           || ((oh.anyTag || hd.1 == oh.tag) && (oh.anyNs || hd.2 == oh.ns))) hall k hk
       simp only [Field.sees, Head.matches, this.1, Bool.true_and]
       exact this.2
+  | rest p excl =>
+    have hp : p = pns := by simpa [wfF] using hwf
+    subst hp
+    cases hgt : g.isText with
+    | true =>
+      rcases encF_kids p g v hwg hcg k hk with h' | h' | h'
+      · simp [Field.sees, h'.2]
+      · cases g <;> simp_all [Field.isText, Field.heads]
+      · simp [hgr] at h'
+    | false =>
+      have hall : g.heads.all (fun hd => !((fun hd => !(excl.any fun e => e.covers hd)) hd)) = true := by
+        cases g <;> simp_all [indepK, Field.isText, Field.isRest]
+      have := heads_all_sees p g v hwg hcg hgt hgr (fun hd => !(excl.any fun e => e.covers hd)) hall k hk
+      have hany : (excl.any fun e => e.covers (k.name, k.nsOf p)) = true := by simpa using this.2
+      simp only [List.any_eq_true] at hany
+      obtain ⟨e, he, hce⟩ := hany
+      have hm := Pat.matches_of_covers e p k this.1 hce
+      have : exclAny excl p k = true := by simp only [exclAny, List.any_eq_true]; exact ⟨e, he, hm⟩
+      simp [Field.sees, this]
 
-theorem encFs_sees (pns : Str) (f : Field) : ∀ (fs : List Field) (vs : List Val),
+theorem encFs_sees (pns : Str) (f : Field) (hwf : wfF pns f = true) : ∀ (fs : List Field) (vs : List Val),
     wfFs pns fs = true → canonFs fs vs = true → (∀ g ∈ fs, indep f g = true) →
     ∀ k ∈ (encFs fs vs).2, f.sees pns k = false
   | [], _, _, _, _, k, hk => by simp [encFs] at hk
@@ -1191,8 +1508,8 @@ theorem encFs_sees (pns : Str) (f : Field) : ∀ (fs : List Field) (vs : List Va
     simp only [canonFs, Bool.and_eq_true] at hc
     simp only [encFs, List.mem_append] at hk
     rcases hk with hk | hk
-    · exact indep_sees pns f g v (hi g (by simp)) hwg hc.1 k hk
-    · exact encFs_sees pns f fs vs hwfs hc.2 (fun g' hg' => hi g' (by simp [hg'])) k hk
+    · exact indep_sees pns f g v (hi g (by simp)) hwf hwg hc.1 k hk
+    · exact encFs_sees pns f hwf fs vs hwfs hc.2 (fun g' hg' => hi g' (by simp [hg'])) k hk
 
 /-! ### guarded wrappers -/
 
@@ -1205,6 +1522,27 @@ theorem guardEmpty_of_empty : ∀ (n : List Bool) (fs : List Field) (vs : List V
     simp only [encFs, Prod.mk.injEq, List.append_eq_nil_iff] at h
     have ih := guardEmpty_of_empty n fs vs (Prod.ext h.1.2 h.2.2)
     simp [guardEmpty, h.1.1, h.2.1, ih]
+
+theorem decFs_length : ∀ (fs : List Field) (pns : Str) (x : Node), (decFs pns x fs).length = fs.length
+  | [], _, _ => rfl
+  | f :: fs, pns, x => by simp [decFs, decFs_length fs pns x]
+
+theorem guardSome_of_empty : ∀ (m : List Bool) (fs : List Field) (vs : List Val), vs.length = fs.length →
+    encFs fs vs = ([], []) → maskHits m fs = true → guardSome m fs vs = true
+  | [], _, _, _, _, h => by simp [maskHits] at h
+  | _ :: _, [], _, _, _, h => by simp [maskHits] at h
+  | _ :: _, _ :: _, [], hl, _, _ => by simp at hl
+  | b :: m, f :: fs, v :: vs, hl, h, hm => by
+    simp only [encFs, Prod.mk.injEq, List.append_eq_nil_iff] at h
+    simp only [maskHits, Bool.or_eq_true] at hm
+    simp only [guardSome, h.1.1, h.2.1, List.isEmpty_nil, Bool.and_true, Bool.or_eq_true]
+    rcases hm with hm | hm
+    · left; exact hm
+    · right
+      exact guardSome_of_empty m fs vs (by simpa using hl) (Prod.ext h.1.2 h.2.2) hm
+
+theorem beq_wrapAll_optional (n : List Bool) : (ChildMode.wrapAll n == ChildMode.optional) = false := rfl
+theorem beq_wrapAll_wrapOmit (n : List Bool) : (ChildMode.wrapAll n == ChildMode.wrapOmit) = false := rfl
 
 theorem beq_optional_optional : (ChildMode.optional == ChildMode.optional) = true := rfl
 theorem beq_wrapOmit_optional : (ChildMode.wrapOmit == ChildMode.optional) = false := rfl
@@ -1227,6 +1565,7 @@ theorem encF_null_quiet : ∀ (f : Field) (pns : Str), quietF f = true →
   | .attrRW r w ty o, pns, h => by
     simp only [quietF, Bool.and_eq_true] at h
     simp [decF, encF, nullNode, Node.attrs, attr_nil, h.1, h.2]
+  | .attrReq .., _, h => by simp [quietF] at h
   | .text ty, pns, h => by
     simp only [quietF, List.isEmpty_iff] at h
     simp [decF, encF, nullNode, deepText, deepTextList, h, textNode]
@@ -1235,6 +1574,7 @@ theorem encF_null_quiet : ∀ (f : Field) (pns : Str), quietF f = true →
   | .many .., _, _ => by simp [decF, encF, nullNode, Node.kids]
   | .strSet .., _, _ => by simp [decF, encF, nullNode, Node.kids, mkSet]
   | .formValue .., _, h => by simp [quietF] at h
+  | .rest .., _, _ => by simp [decF, encF, nullNode, Node.kids]
   | .child hd fs mode, pns, h => by
     simp only [decF, nullNode, Node.kids, pickChild_nil, Option.filter_none]
     cases mode with
@@ -1251,6 +1591,12 @@ theorem encF_null_quiet : ∀ (f : Field) (pns : Str), quietF f = true →
       simp only [nullNode] at ih
       have hg := guardEmpty_of_empty n fs _ ih
       simp [encF, ih, hg, beq_wrapGuard_optional, beq_wrapGuard_wrapOmit, ChildMode.isGuard, ChildMode.guardN]
+    | wrapAll n =>
+      simp only [quietF, Bool.and_eq_true] at h
+      have ih := encFs_null_quiet fs hd.ns h.1
+      have hg := guardSome_of_empty n fs _ (decFs_length fs hd.ns nullNode) ih h.2
+      simp only [nullNode] at ih hg
+      simp [encF, ih, hg, beq_wrapAll_optional, beq_wrapAll_wrapOmit, ChildMode.isGuard, ChildMode.isAll, ChildMode.guardN]
 theorem encFs_null_quiet : ∀ (fs : List Field) (pns : Str), quietFs fs = true →
     encFs fs (decFs pns nullNode fs) = ([], [])
   | [], _, _ => by simp [decFs, encFs]
@@ -1296,6 +1642,14 @@ theorem decF_encF : ∀ (f : Field) (pns t : Str) (P R : List (Str × Str)) (Q S
       exact FTy.parse_show ty v hw.2 hc
   | .attrReadOnly name ty, pns, t, P, R, Q, S, v, hw, hc, _, _, _, _ => by simp [wfF] at hw
   | .attrRW r w ty o, pns, t, P, R, Q, S, v, hw, hc, _, _, _, _ => by simp [wfF] at hw
+  | .attrReq name ty, pns, t, P, R, Q, S, v, hw, hc, hP, hR, _, _ => by
+    simp only [wfF, Bool.and_eq_true] at hw
+    simp only [canonF] at hc
+    have hP' : ∀ kv ∈ P, ¬ kv.1 = name := fun kv hkv => by
+      have := hP kv hkv; simp only [Field.reads, beq_eq_false_iff_ne, ne_eq] at this; exact fun e => this e.symm
+    simp only [decF, Node.attrs, encF]
+    rw [attr_append_of_not_mem P _ name hP', List.singleton_append, attr_cons_self]
+    exact FTy.parse_show ty v hw.2 hc
   | .text ty, pns, t, P, R, Q, S, v, hw, hc, _, _, hQ, hS => by
     simp only [wfF] at hw
     simp only [canonF] at hc
@@ -1364,7 +1718,7 @@ theorem decF_encF : ∀ (f : Field) (pns t : Str) (P R : List (Str × Str)) (Q S
   | .child h fs mode, pns, t, P, R, Q, S, v, hw, hc, _, _, hQ, hS => by
     simp only [Field.sees] at hQ hS
     simp only [wfF, Bool.and_eq_true] at hw
-    obtain ⟨⟨⟨hok, hex⟩, hwfs⟩, _⟩ := hw
+    obtain ⟨⟨⟨⟨hok, hex⟩, hwfs⟩, _⟩, _⟩ := hw
     simp only [decF, Node.kids, encF]
     cases v with
     | absent =>
@@ -1393,15 +1747,15 @@ theorem decF_encF : ∀ (f : Field) (pns t : Str) (P R : List (Str × Str)) (Q S
         simp only [hcond, Bool.false_eq_true, ↓reduceIte]
         cases hg : guardOff mode fs vs with
         | true =>
-          have hg' : (mode.isGuard && guardEmpty mode.guardN fs vs) = true := hg
+          have hg' : ((mode.isGuard && guardEmpty mode.guardN fs vs) || (mode.isAll && guardSome mode.guardN fs vs)) = true := hg
           have hmode : (mode == ChildMode.optional) = false := by
-            cases mode <;> first | rfl | (simp [guardOff, ChildMode.isGuard] at hg)
+            cases mode <;> first | rfl | (simp [guardOff, ChildMode.isGuard, ChildMode.isAll] at hg)
           simp only [hg', ↓reduceIte, List.nil_append, pickChild_none _ _ Q S hQ hS, hmode, Bool.false_eq_true,
             if_false, Option.filter_none]
           simp only [hg, Bool.not_true, Bool.false_or, Bool.and_eq_true, List.isEmpty_iff] at hcg
           exact congrArg Val.record (hnull hcg.1 hcg.2)
         | false =>
-          have hg' : (mode.isGuard && guardEmpty mode.guardN fs vs) = false := hg
+          have hg' : ((mode.isGuard && guardEmpty mode.guardN fs vs) || (mode.isAll && guardSome mode.guardN fs vs)) = false := hg
           simp only [hg', Bool.false_eq_true, ↓reduceIte]
           have hx := mk_no_xmlns hex vs hwfs
           have hm := head_matches_mk' h pns (encFs fs vs).1 (encFs fs vs).2 hok hx
@@ -1427,27 +1781,30 @@ theorem decF_encF : ∀ (f : Field) (pns t : Str) (P R : List (Str × Str)) (Q S
         obtain ⟨it, _, rfl⟩ := hk
         exact head_matches_mk' h pns _ _ hw.1.1 (mk_no_xmlns hw.1.2 it.recVals hw.2)
       rw [List.filter_append, List.filter_append, filter_nil_of_all_false _ Q hQ,
-        filter_nil_of_all_false _ S hS, filter_self_of_all_true _ _ hall, List.nil_append, List.append_nil,
-        List.map_map]
+        filter_nil_of_all_false _ S hS, filter_self_of_all_true _ _ hall, List.nil_append, List.append_nil]
       congr 1
-      induction items with
-      | nil => rfl
-      | cons it items ih =>
-        have hit := hc it (by simp)
-        have ih' := ih (fun x hx => hc x (by simp [hx]))
-          (fun k hk => hall k (by simp only [List.map_cons, List.mem_cons]; exact Or.inr hk))
-        simp only [List.map_cons, ih']
-        congr 1
-        cases it with
-        | record vs =>
-          simp only at hit
-          have hx := mk_no_xmlns hw.1.2 vs hw.2
-          simp only [Function.comp, Val.recVals]
-          rw [nsOf_mk' h pns _ _ hw.1.1 hx]
-          have := decFs_encFs fs h.ns h.tag (nsAttr h.decl h.ns ++ h.extra) [] vs hw.2 hit
-            (prefix_not_read hw.1.2 hw.2) (by simp)
-          simpa [Head.mk'] using congrArg Val.record this
-        | _ => simp at hit
+      -- every written item has its mandatory parts, so none is skipped, and reads back as itself
+      have hitems : ∀ (l : List Val), (∀ it ∈ l, (match it with | .record vs => canonFs fs vs && mandOK fs vs | _ => false) = true) →
+          (l.map fun it => h.mk' (encFs fs it.recVals).1 (encFs fs it.recVals).2).filterMap (fun k =>
+            if mandOK fs (decFs (k.nsOf pns) k fs) then some (Val.record (decFs (k.nsOf pns) k fs)) else none) = l := by
+        intro l
+        induction l with
+        | nil => intro _; rfl
+        | cons it l ih =>
+          intro hl
+          have hit := hl it (by simp)
+          have ih' := ih (fun x hx => hl x (by simp [hx]))
+          cases it with
+          | record vs =>
+            simp only [Bool.and_eq_true] at hit
+            have hx := mk_no_xmlns hw.1.2 vs hw.2
+            have hdec := decFs_encFs fs h.ns h.tag (nsAttr h.decl h.ns ++ h.extra) [] vs hw.2 hit.1
+              (prefix_not_read hw.1.2 hw.2) (by simp)
+            have hdec' : decFs h.ns (h.mk' (encFs fs vs).1 (encFs fs vs).2) fs = vs := by simpa [Head.mk'] using hdec
+            simp only [List.map_cons, Val.recVals, List.filterMap_cons, nsOf_mk' h pns _ _ hw.1.1 hx, hdec', hit.2, if_true]
+            exact congrArg (List.cons (Val.record vs)) ih'
+          | _ => simp at hit
+      exact hitems items hc
     | _ => simp [canonF] at hc
   | .strSet h, pns, t, P, R, Q, S, v, hw, hc, _, _, hQ, hS => by
     simp only [Field.sees] at hQ hS
@@ -1563,6 +1920,33 @@ theorem decF_encF : ∀ (f : Field) (pns t : Str) (P R : List (Str × Str)) (Q S
       have hidx : enumIdxD (nth names i) names dflt = i := by simp [enumIdxD, idxOf_nth hnd hi]
       rw [attr_append_of_not_mem P _ a hP', List.singleton_append, attr_cons_self, hidx]
       simp only [hval, hopts, hv]
+  | .rest p excl, pns, t, P, R, Q, S, v, hw, hc, _, _, hQ, hS => by
+    simp only [Field.sees] at hQ hS
+    simp only [decF, Node.kids, encF]
+    cases v with
+    | list items =>
+      simp only [canonF, List.all_eq_true, Bool.and_eq_true, Bool.not_eq_true'] at hc
+      have hall : ∀ k ∈ items.map Val.getNode, (k.isElem && !exclAny excl p k) = true := by
+        intro k hk
+        simp only [List.mem_map] at hk
+        obtain ⟨it, hit, rfl⟩ := hk
+        have := hc it hit
+        simp [this.1.1.2, this.1.2]
+      rw [List.filter_append, List.filter_append, filter_nil_of_all_false _ Q hQ,
+        filter_nil_of_all_false _ S hS, filter_self_of_all_true _ _ hall, List.nil_append, List.append_nil,
+        List.map_map]
+      congr 1
+      have : ∀ it ∈ items, ((fun k => Val.node (normE p k)) ∘ Val.getNode) it = it := by
+        intro it hit
+        have h := hc it hit
+        cases it with
+        | node t' =>
+          simp only [Function.comp, Val.getNode] at h ⊢
+          rw [nodeEq_eq _ _ h.2]
+        | _ => simp [Val.isNode] at h
+      calc items.map ((fun k => Val.node (normE p k)) ∘ Val.getNode) = items.map id := List.map_congr_left this
+        _ = items := List.map_id _
+    | _ => simp [canonF] at hc
 theorem decFs_encFs : ∀ (fs : List Field) (pns t : Str) (P : List (Str × Str)) (Q : List Node) (vs : List Val),
     wfFs pns fs = true → canonFs fs vs = true →
     (∀ kv ∈ P, ∀ f ∈ fs, f.reads kv.1 = false) → (∀ k ∈ Q, ∀ f ∈ fs, f.sees pns k = false) →
@@ -1585,7 +1969,7 @@ theorem decFs_encFs : ∀ (fs : List Field) (pns t : Str) (P : List (Str × Str)
         exact indep_writes_reads f g (hind g hg).1 kv.1 hr
       · exact fun k hk => hQ k hk f (by simp)
       · intro k hk
-        exact encFs_sees pns f fs vs hwfs hc.2 (fun g hg => (hind g hg).1) k hk
+        exact encFs_sees pns f hwf fs vs hwfs hc.2 (fun g hg => (hind g hg).1) k hk
     · -- the remaining fields: the head field's output is invisible to them
       have := decFs_encFs fs pns t (P ++ (encF f v).1) (Q ++ (encF f v).2) vs hwfs hc.2
         (by
@@ -1599,7 +1983,7 @@ theorem decFs_encFs : ∀ (fs : List Field) (pns t : Str) (P : List (Str × Str)
           simp only [List.mem_append] at hk
           rcases hk with hk | hk
           · exact hQ k hk g (by simp [hg])
-          · exact indep_sees pns g f v (hind g hg).2 hwf hc.1 k hk)
+          · exact indep_sees pns g f v (hind g hg).2 (wfFs_mem hwfs g hg) hwf hc.1 k hk)
       simpa [List.append_assoc] using this
 end
 
@@ -1610,6 +1994,7 @@ theorem canonF_decF : ∀ (f : Field) (pw pns : Str) (x : Node), wfF pw f = true
   | .attr name ty o, _, pns, x, _ => by simp only [decF, canonF, FTy.canon_parse]
   | .attrReadOnly name ty, _, pns, x, _ => by simp only [decF, canonF, FTy.canon_parse]
   | .attrRW r w ty o, _, pns, x, _ => by simp only [decF, canonF, FTy.canon_parse]
+  | .attrReq name ty, _, pns, x, _ => by simp only [decF, canonF, FTy.canon_parse]
   | .text ty, _, pns, x, _ => by simp only [decF, canonF, FTy.canon_parse]
   | .enumChild ns decl anyNs names m, _, pns, x, _ => by
     simp only [decF]
@@ -1630,7 +2015,7 @@ theorem canonF_decF : ∀ (f : Field) (pw pns : Str) (x : Node), wfF pw f = true
     · simp [canonF, Val.tagParts]
   | .child h fs mode, pw, pns, x, hw => by
     simp only [wfF, Bool.and_eq_true] at hw
-    obtain ⟨⟨⟨_, _⟩, hwfs⟩, hq⟩ := hw
+    obtain ⟨⟨⟨⟨_, _⟩, hwfs⟩, hq⟩, hqa⟩ := hw
     -- the all-defaults record is canonical: under a guard it writes nothing
     have hnull : canonF (.child h fs mode) (.record (decFs h.ns nullNode fs)) = true := by
       simp only [canonF, Bool.and_eq_true, canonFs_decFs fs h.ns h.ns nullNode hwfs, true_and]
@@ -1638,7 +2023,12 @@ theorem canonF_decF : ∀ (f : Field) (pw pns : Str) (x : Node), wfF pw f = true
       | wrapGuard n =>
         have hq' : quietFs fs = true := by simpa [ChildMode.isGuard] using hq
         simp [encFs_null_quiet fs h.ns hq']
-      | _ => simp [guardOff, ChildMode.isGuard]
+      | wrapAll n =>
+        have hq' : quietFs fs = true := by
+          simp only [ChildMode.isAll, Bool.not_true, Bool.false_or, Bool.and_eq_true] at hqa
+          exact hqa.1
+        simp [encFs_null_quiet fs h.ns hq']
+      | _ => simp [guardOff, ChildMode.isGuard, ChildMode.isAll]
     simp only [decF]
     split
     · rename_i k _
@@ -1652,9 +2042,14 @@ theorem canonF_decF : ∀ (f : Field) (pw pns : Str) (x : Node), wfF pw f = true
       · exact hnull
   | .many h fs ne, pw, pns, x, hw => by
     simp only [wfF, Bool.and_eq_true] at hw
-    simp only [decF, canonF, List.all_eq_true, List.mem_map]
-    rintro it ⟨k, _, rfl⟩
-    exact canonFs_decFs fs h.ns _ _ hw.2
+    simp only [decF, canonF, List.all_eq_true, List.mem_filterMap]
+    rintro it ⟨k, _, hk⟩
+    split at hk
+    · rename_i hm
+      simp only [Option.some.injEq] at hk
+      subst hk
+      simp [canonFs_decFs fs h.ns _ _ hw.2, hm]
+    · simp at hk
   | .strSet h, pw, pns, x, _ => by
     simp only [decF, canonF, Bool.and_eq_true, List.map_map]
     refine ⟨by simp [Val.isStr], ?_⟩
@@ -1683,6 +2078,10 @@ theorem canonF_decF : ∀ (f : Field) (pw pns : Str) (x : Node), wfF pw f = true
       simp only [if_true, List.all_eq_true, List.mem_map]
       rintro it ⟨k, _, rfl⟩
       exact canonFs_decFs ofs oh.ns _ _ hwfs
+  | .rest p excl, pw, pns, x, _ => by
+    simp only [decF, canonF, List.all_eq_true, List.mem_map, List.mem_filter, Bool.and_eq_true, Bool.not_eq_true']
+    rintro it ⟨k, ⟨_, hk⟩, rfl⟩
+    simp only [Val.isNode, Val.getNode, normE_isElem, exclAny_normE, normE_idem, nodeEq_refl, hk.1, hk.2, and_self]
 theorem canonFs_decFs : ∀ (fs : List Field) (pw pns : Str) (x : Node), wfFs pw fs = true →
     canonFs fs (decFs pns x fs) = true
   | [], _, pns, x, _ => by simp [decFs, canonFs]
@@ -1698,16 +2097,18 @@ theorem mandF_of_noMand : ∀ (f : Field) (v : Val), noMandF f = true → mandF 
   | .attr .., _, _ => by simp [mandF]
   | .attrReadOnly .., _, _ => by simp [mandF]
   | .attrRW .., _, _ => by simp [mandF]
+  | .attrReq .., _, h => by simp [noMandF] at h
   | .text _, _, _ => by simp [mandF]
   | .tagChild .., _, _ => by simp [mandF]
   | .strSet .., _, _ => by simp [mandF]
   | .formValue .., _, _ => by simp [mandF]
+  | .rest .., _, _ => by simp [mandF]
   | .enumChild _ _ _ _ m, v, h => by
     simp only [noMandF, Bool.not_eq_true'] at h
     simp [mandF, h]
   | .many _ fs ne, v, h => by
-    simp only [noMandF, Bool.and_eq_true, Bool.not_eq_true'] at h
-    cases v <;> simp [mandF, h.1]
+    simp only [noMandF, Bool.not_eq_true'] at h
+    cases v <;> simp [mandF, h]
   | .child _ fs mode, v, h => by
     simp only [noMandF] at h
     cases v <;> simp [mandF, mandOK_of_noMand fs _ h]
